@@ -133,6 +133,18 @@ def insertSorted (less : Val → Val → Bool) (x : Val) : List Val → List Val
 def sortVals (less : Val → Val → Bool) (xs : List Val) : List Val :=
   xs.foldr (fun x acc => insertSorted less x acc) []
 
+/-- the content of a `*Value` item of a list literal -/
+def unboxItem (v : Val) : Val :=
+  match v with
+  | .boxed inner s => (Val.unboxAll inner s).1
+  | v => v
+
+/-- the loop variable: a `*Value` item is bound as it is, anything else is wrapped -/
+def bindItem (v : Val) : Val :=
+  match v with
+  | .boxed .. => v
+  | v => .boxed v false
+
 /-- items `(key, value?)` that `IterateOrder` visits -/
 def iterItems (v : Val) (reversed sorted : Bool) : List (Val × Option Val) :=
   -- reflect sees through a named type: a string-kinded Stringer iterates its underlying string
@@ -146,7 +158,10 @@ def iterItems (v : Val) (reversed sorted : Bool) : List (Val × Option Val) :=
     let ks := if sorted then (if reversed then sortVals (fun a c => valLess c a) ks else sortVals valLess ks) else ks
     ks.map fun k => (k, some (match k with | .int i => (kvs.lookup i).getD .nil | _ => .nil))
   | .list _ xs | .arr _ xs =>
-    let xs := if sorted then (if reversed then sortVals (fun a c => valLess c a) xs else sortVals valLess xs)
+    -- the items of an in-template list literal are `*Value` already: they are compared (and handed
+    -- to the loop) as they are, not wrapped once more
+    let less := fun a c => valLess (unboxItem a) (unboxItem c)
+    let xs := if sorted then (if reversed then sortVals (fun a c => less c a) xs else sortVals less xs)
               else if reversed then xs.reverse else xs
     xs.map fun x => (x, none)
   | .str s =>
@@ -1129,8 +1144,9 @@ def forLoop : Nat → Bytes → Bytes → List Node → Val → List (Val × Opt
     let rec_ := loopRecord (Int64.ofNat (idx + 1)) (Int64.ofNat idx) (Int64.ofNat (count - idx))
       (Int64.ofNat (count - (idx + 1))) first last parent
     modifyCur fun f =>
-      let p1 := f.priv.set key (.boxed k false)
-      let p2 := match v with | some vv => p1.set value (.boxed vv false) | none => p1
+      let p1 := f.priv.set key (bindItem k)
+      -- a loop over a map with a single loop variable has no name for the value
+      let p2 := match v with | some vv => if value = [] then p1 else p1.set value (.boxed vv false) | none => p1
       { f with priv := p2.set b!"forloop" rec_ }
     execNodes fuel body
     forLoop fuel key value body parent rest (idx + 1) count first last
